@@ -188,7 +188,8 @@ package rules
 //@   props C01 C08
 //@   requires len(r.sc) > 0
 //@   ensures req.n > old(req.n) && req.arg0[old(req.n)] == ctx
-//@   ensures old(r.slashesHandling) == config2.EncodedSlashesOff && hasEncodedSlash(before(req.ret0[old(req.n)].URL.RawPath)) ==> ret1 != nil && Is(ret1, heimdall.ErrArgument) && ret0 == nil && auth.n == old(auth.n) && step.n == old(step.n)
+//@   assert at call compositeSubjectCreator_.Execute#1: old(r.slashesHandling) != config2.EncodedSlashesOff || !hasEncodedSlash(request.URL.RawPath)
+//@   ensures auth.n == old(auth.n) ==> ret1 != nil && ret0 == nil && step.n == old(step.n) && ehl.n == old(ehl.n) && Is(ret1, heimdall.ErrArgument)
 //@   ensures ret1 != nil ==> ret0 == nil
 //@   ensures ret1 == nil ==> (spe.n > old(spe.n) && spe.arg0[spe.n-1] == ctx && spe.arg1[spe.n-1] != nil) || (auth.n > old(auth.n) && auth.ret1[auth.n-1] == nil && step.n == old(step.n) + len(r.sh) + len(r.fi) && forall k int :: old(step.n) <= k && k < step.n ==> step.ret0[k] == nil || continueOnError(step.arg0[k]))
 //@   ensures forall k int :: old(step.n) <= k && k < step.n && k - old(step.n) < len(r.sh) ==> step.arg0[k] == r.sh[k - old(step.n)]
